@@ -553,8 +553,11 @@ def semantic_cases():
             ("ed25519", "TLS1.2-Ed25519", "C", False),
             ("ed25519", "TLS1.3-Ed25519-chacha", "C", True)):
         cert0 = bytes(W.load_cred(cred)[0].x509List[0].bytes)
-        for path in der_paths(cert0, DER_DEPTH[0]):
-            for mk in DER_MUTS:
+        for (path, mk) in [(p, m) for p in der_paths(cert0, DER_DEPTH[0])
+                           for m in DER_MUTS] + \
+                [(p, m) for p in der_oid_paths(cert0)
+                 for m in sorted(OTHER_OIDS)]:
+            if True:
                 def m(data, path=path, mk=mk, tls13=tls13, cert0=cert0):
                     d = bytes(data)
                     if d[0] != 11:
@@ -665,6 +668,32 @@ def der_paths(cert, depth):
     return paths
 
 
+def der_oid_paths(cert):
+    """Paths of every OBJECT IDENTIFIER node, at any depth."""
+    out = []
+
+    def walk(start, end, path):
+        ch = _der_children(cert, start, end)
+        if ch is None:
+            return
+        for i, (tag, o, cs, ce) in enumerate(ch):
+            p = path + (i,)
+            if tag == 0x06:
+                out.append(p)
+            if tag & 0x20 and len(p) < 12:
+                walk(cs, ce, p)
+    walk(0, len(cert), ())
+    return out
+
+
+# well-formed OIDs the certificate code has no entry for / another entry for
+OTHER_OIDS = {"oid-prime192v2": bytes.fromhex("2a8648ce3d030102"),
+              "oid-unknown-arc": bytes.fromhex("883701"),
+              "oid-sha1rsa": bytes.fromhex("2a864886f70d010105"),
+              "oid-secp224r1": bytes.fromhex("2b81040021"),
+              "oid-ed448": bytes.fromhex("2b6571")}
+
+
 def _der_tlv(tag, content):
     n = len(content)
     if n < 0x80:
@@ -701,6 +730,10 @@ def der_mutate(cert, path, kind):
                 out += _der_tlv(tag, cert[cs:ce - 1])
             elif kind == "dup":
                 out += cert[o:ce] * 2
+            elif kind in OTHER_OIDS:
+                if cert[cs:ce] == OTHER_OIDS[kind]:
+                    return None
+                out += _der_tlv(tag, OTHER_OIDS[kind])
         return out
     return rebuild(0, len(cert), tuple(path))
 
